@@ -385,6 +385,11 @@ class C13(Engine):
 
                 return
 
+            # "Every resulting codec object": the objects compiled earlier
+            # are kept and looked at again when the history is over.
+            retained.append((codec, flag, adbc, compiled[1], list(prefix)
+                             + [[codec, flag]]))
+
             if case.get('check') == 'last' and not is_last:
                 return
 
@@ -401,6 +406,7 @@ class C13(Engine):
 
         last_compile = max([i for i, s in enumerate(case['steps'])
                             if s['op'] in ('compile', 'cli_double')] or [-1])
+        retained = []
 
         for index, step in enumerate(case['steps']):
             op = step['op']
@@ -492,6 +498,28 @@ class C13(Engine):
 
                 live = restored
                 prefix.append([op])
+
+        # A later compile of the same dictionary must not change the
+        # codec objects it produced earlier (aliasing between the
+        # dictionary and compiled objects): the first one is probed again.
+        if len(retained) > 1 and not result.violations:
+            codec, flag, adbc, spec, made_after = retained[0]
+            want = reference(codec, flag, adbc)[1]
+            got = probesets[(codec, flag, adbc)].apply(spec)
+            result.stats['earlier-objects-probed-again'] += 1
+            difference = first_difference(got, want)
+
+            if difference is not None:
+                report('digest-diff',
+                       {'codec': codec, 'numeric_enums': flag,
+                        'history': prefix, 'made_after': made_after,
+                        'note': 'a codec object compiled earlier in the '
+                                'history behaves differently once the '
+                                'later steps have run',
+                        'probe': difference[0],
+                        'got': str(difference[1])[:400],
+                        'expected': str(difference[2])[:400]},
+                       len(case['steps']) - 1)
 
         result.log.append(['history', prefix, result.evaluations,
                            sorted(result.stats.items())])
